@@ -398,7 +398,7 @@ fn raw_stream_compare(p: &mdparse::Parsed, img: &[u8], ty: u32, path: &str) -> V
     }
 }
 
-fn collect_oracles(report: &Value, pid: i32, blamed: i32, p: &mdparse::Parsed, img: &[u8], want_regs: bool) -> Value {
+fn collect_oracles(report: &Value, pid: i32, blamed: i32, p: &mdparse::Parsed, img: &[u8], want_regs: bool, want_modules: bool) -> Value {
     let mut o = json!({});
     // threads as the kernel lists them now, their comm bytes and state
     let tids = target::list_tids(pid);
@@ -474,7 +474,7 @@ fn collect_oracles(report: &Value, pid: i32, blamed: i32, p: &mdparse::Parsed, i
     // independent ELF identification of every named mapping that starts a file (or an embedded image):
     // from the file when it exists, and from the mapped memory
     let mut mods = Vec::new();
-    {
+    if want_modules {
         let text = o["maps"].as_str().unwrap_or("").to_string();
         let lines = crate::maps::parse_text(&text);
         // mapping groups exactly as MapsAggregate (the model validated by C13) forms them
@@ -696,7 +696,8 @@ pub fn worker_main(scn: &Value, report: &Value, shared_path: Option<String>, out
                         rec["soft_errors_raw"] = json!(String::from_utf8_lossy(se));
                     }
                     if rec["outcome"] == "ok" || scn.get("oracles_on_error").is_some() {
-                        rec["oracle"] = collect_oracles(report, pid, writer.blamed_thread, &p, img, scn.get("want_regs").and_then(|v| v.as_bool()).unwrap_or(false));
+                        rec["oracle"] = collect_oracles(report, pid, writer.blamed_thread, &p, img, scn.get("want_regs").and_then(|v| v.as_bool()).unwrap_or(false),
+                                                        scn.get("want_modules").and_then(|v| v.as_bool()).unwrap_or(false));
                     }
                     // small memory-list regions verbatim (counters of spinner targets)
                     if let Some(regs) = p.streams.get("memlist").and_then(|m| m["regions"].as_array()) {
